@@ -34,7 +34,24 @@ def parts(tier):
             Part("tiny_steps", strategy=_tiny_steps(), examples=150 if q else 3000, timeout=300),
             Part("junction", strategy=_junction(), examples=300 if q else 6000, timeout=300),
             Part("multi_crossing", strategy=_multi_crossing(), examples=300 if q else 6000, timeout=300),
-            Part("after_terminal", strategy=_after_terminal(), examples=300 if q else 6000, timeout=300)]
+            Part("after_terminal", strategy=_after_terminal(), examples=300 if q else 6000, timeout=300),
+            Part("ladder", strategy=_ladder(), examples=300 if q else 6000, timeout=300)]
+
+
+@st.composite
+def _ladder(draw):
+    """y' = +-rate, one non-terminal event y[0] - constants['lvl'] (an alarm level), and a callback that re-arms the alarm above the
+    state whenever the state has passed it (constants edited in place or replaced): right after a re-arming g has the other
+    sign than at the end of the step before, and the next level may be crossed in the very next step"""
+    method = draw(st.sampled_from(["RK4Solver", "RK45CKSolver", "RK8713MSolver", "EulerSolver", "ImplicitMidpoint", "HeunEulerSolver", "SymplecticEulerSolver", "Rich2:RK4Solver", "DOPRI45"]))
+    t0 = draw(st.sampled_from([0.0, -4.0, 10.0]))
+    return dict(part="ladder", method=method, t0=t0, sgn=draw(st.sampled_from([1.0, 1.0, -1.0])), L=draw(st.sampled_from([4.0, 8.0])),
+                dt=draw(st.sampled_from([0.125, 0.25, 0.3, 0.41])), rate=draw(st.sampled_from([1.0, 0.5, 2.0])), lvl0=draw(st.sampled_from([0.61, 0.137, 1.07])),
+                delta=draw(st.sampled_from([0.37, 0.113, 0.29, 0.83])), how=draw(st.sampled_from(["in_place", "in_place", "replace"])),
+                direction=draw(st.sampled_from([0, 0, 1])), falling=draw(st.sampled_from([False, False, True])), dense=draw(st.booleans()),
+                # ... or the callback leaves the level alone and sets the STATE back below it (system.y[-1][0] -= drop: "manipulating the
+                # state of the system" is what the documentation of integrate() names callbacks for): a sawtooth
+                mode=draw(st.sampled_from(["rearm_level", "rearm_level", "reset_state"])))
 
 
 @st.composite
@@ -173,7 +190,88 @@ def _near_tangent(draw):
                 rtol=1e-6, atol=1e-6, dense=draw(st.booleans()), events=evs)
 
 
+def _check_ladder(case):
+    import desolver as de
+    method = case["method"]
+    fam = M.family(M.get(method))
+    attrs = dict(method=method, family=fam, dense=bool(case["dense"]))
+    t0, sgn, rate = case["t0"], case["sgn"], case["rate"]
+    tf = t0 + sgn * case["L"]
+    up = -1.0 if case.get("falling") else 1.0          # the state rises (falls) along the integration, whichever way time runs
+    two = fam == "splitting"
+
+    def rhs(t, y, **kw):
+        return np.array([sgn * up * rate, 0.0]) if two else np.array([sgn * up * rate])
+
+    def alarm(t, y, lvl=0.0, **kw):
+        return y[0] - lvl
+    alarm.direction = int(case["direction"] * up) if case["direction"] else 0      # (relative to the direction of integration)
+    a = de.OdeSystem(rhs, y0=np.array([0.0, 0.0]) if two else np.array([0.0]), t=(t0, tf), dense_output=case["dense"], dt=case["dt"], rtol=1e-8, atol=1e-8,
+                     constants=dict(lvl=up * case["lvl0"]))
+    a.method = M.get(method)
+    pre_edit = {}                                     # the state at the end of each step as the integrator left it, before the callback set it back
+    in_force = {0: up * case["lvl0"]}                 # level seen by the examination of the step that STARTS at this sample index
+
+    def rearm(system):
+        lvl = system.constants["lvl"]
+        yy = float(system.y[-1][0])
+        if case.get("mode") == "reset_state":
+            pre_edit[len(system) - 1] = yy
+            if (yy - lvl) * up >= 0:
+                k_ = int((yy - lvl) * up / case["delta"]) + 1
+                system.y[-1][0] = yy - up * k_ * case["delta"]
+            in_force[len(system) - 1] = lvl
+            return
+        while (yy - lvl) * up >= 0:
+            lvl = lvl + up * case["delta"]
+        if lvl != system.constants["lvl"]:
+            if case["how"] == "replace":
+                system.constants = dict(lvl=lvl)
+            else:
+                system.constants["lvl"] = lvl
+        in_force[len(system) - 1] = lvl
+    err = traj.run_integrate(a, None, step_limit=600, events=[alarm], callbacks=[rearm])
+    labels = ["ladder:" + (case["how"] if case.get("mode") != "reset_state" else "state_reset_by_callback"), "family:" + fam, "dense:on" if case["dense"] else "dense:off", "backward" if sgn < 0 else "forward", "falling" if case.get("falling") else "rising"]
+    if isinstance(err, traj.StepCap):
+        return [], dict(nontrivial=False, labels=labels + ["capped"])
+    if err is not None:
+        return [V("integrate_raised", "{}: raised {!r} caused by {!r}".format(method, err, err.__cause__), fam + exc_sig(err), **attrs)], dict(nontrivial=False, labels=labels)
+    t = np.asarray(a.t, dtype=np.float64)
+    y = np.asarray(a.y, dtype=np.float64)[:, 0]
+    rec_t = np.asarray([float(e.t) for e in a.events], dtype=np.float64)
+    viols = []
+    crossings = 0
+    rearmed_then_crossed = 0
+    # (event records add samples of their own: steps are the intervals between consecutive samples; a level is in force from the
+    #  callback round that set it until the next round)
+    idxs = sorted(in_force)
+    for k in range(len(t) - 1):
+        j = max(i for i in idxs if i <= k)
+        lvl = in_force[j]
+        # (the two ends of the accepted step: it starts from the recorded - possibly edited - state and ends where the integrator put it)
+        ga, gb = y[k] - lvl, pre_edit.get(k + 1, y[k + 1]) - lvl
+        if (ga < 0 < gb) or (gb < 0 < ga):
+            crossings += 1
+            if j == k and k > 0 and in_force.get(max(i for i in idxs if i < k) if any(i < k for i in idxs) else 0) != lvl:
+                rearmed_then_crossed += 1
+            lo, hi = min(t[k], t[k + 1]), max(t[k], t[k + 1])
+            slack = 1e-9 * max(1.0, abs(lo), abs(hi))
+            if not np.any((rec_t >= lo - slack) & (rec_t <= hi + slack)):
+                viols.append(V("missed_crossing", "{}: y - lvl goes from {:.4g} to {:.4g} over the recorded step [{!r}, {!r}] (alarm level {!r}, set by the callback at t = {!r}) but no event is recorded there; records at {}".format(
+                    method, ga, gb, float(t[k]), float(t[k + 1]), lvl, float(t[j]), rec_t.tolist()[:8]), fam + ":ladder", **attrs))
+                break
+    if not viols:
+        for e in a.events:
+            lv = in_force[max(i for i in idxs if float(t[i]) * sgn <= float(e.t) * sgn + 1e-12)] if case.get("mode") != "reset_state" else up * case["lvl0"]
+            if abs(float(e.y[0]) - lv) > 1e-9 * max(1.0, abs(lv)) and not any(abs(float(e.y[0]) - v) <= 1e-9 * max(1.0, abs(v)) for v in in_force.values()):
+                viols.append(V("record_not_on_the_level", "{}: an event is recorded at t = {!r} with y = {!r}, which is on no alarm level ({!r} in force)".format(method, float(e.t), float(e.y[0]), lv), fam + ":ladder", **attrs))
+                break
+    return viols, dict(nontrivial=crossings >= 2, labels=labels + (["crossing_in_the_step_after_rearming"] if rearmed_then_crossed else []), counts=dict(sign_changes=crossings))
+
+
 def check(case):
+    if case.get("part") == "ladder":
+        return _check_ladder(case)
     import desolver as de
     method = case["method"]
     fam = M.family(M.get(method))
